@@ -914,6 +914,9 @@ func (x *Exec) instantiatePure(env *Env, qn string, c *Contract, f *ssa.Function
 	}
 	var post []Term
 	for _, en := range c.Ensures {
+		if !x.wantsClause(en) {
+			continue
+		}
 		post = append(post, x.trBool(cenv, en.E))
 	}
 	var wfs []Term
